@@ -356,6 +356,8 @@ class ModelMixin:
         if isinstance(v, SeqV):
             i = self.bound("i", T.I)
             return KSetV([("big", [i], z3.And(i >= 0, i < v.n), [("one", self.as_key(v.elem(i)))])])
+        if isinstance(v, MapKeys):
+            return self._askset(v)
         raise Unsupported(f"set({v!r})")
 
     def b_class_tuple(self, a, k):
@@ -640,6 +642,13 @@ class ModelMixin:
                 return Sym("bool", z3.Function("startswith!" + str(p), T.Val, T.B)(self.as_val(recv)))
             if meth in ("strip", "splitlines", "join", "format"):
                 return Sym("val", self.fresh("str", T.Val))
+            if meth == "replace" and len(args) == 2 and not kwargs:
+                # str.replace is total on strings (the receiver is a string on this path: A-py for str results, literals)
+                r = self.as_val(recv)
+                known = isinstance(recv, str) or (z3.is_app(r) and r.decl().name() in ("strform", "str_replace", "val_of_key"))
+                if not known and not self.fork(T.isstr(r)):
+                    raise Unsupported("replace on a value that may not be a string")
+                return Sym("val", T.str_replace(r, self.as_val(args[0]), self.as_val(args[1])))
         if isinstance(recv, JsonText) and meth == "encode":
             sm = recv.sm
             e = sm.elem
